@@ -482,7 +482,7 @@ def scenarios(tier):
         if thorough:
             reg += [('Decrypt', 0, T), ('DeriveKey', [1, 0], FULL)]
         out.append(('registered-' + t, [('Register', t, FULL), ('Create', FULL), ('Activate', 1)], reg,
-                    3 if thorough and t == 'PrivateKey' else 2))
+                    2))
     return out
 
 
@@ -596,7 +596,7 @@ def all_histories(ctx):
             hs.append((name, list(setup) + list(seq)))
     hs += grid()
     rng = ctx.subrng('histories')
-    n = 1000 if ctx.tier == 'thorough' else 150
+    n = 800 if ctx.tier == 'thorough' else 150
     for i in range(n):
         hs.append(('random', random_history(rng, rng.randint(5, 40))))
     return hs
@@ -798,6 +798,8 @@ def run(ctx):
         model = ctx.model_output(HEADER, 'explain (%s)' % cases[j]) if j in bad[:3] else None
         ctx.disagreement('histories', {'history': [list(o) for o in histories[i][1]], 'generator': histories[i][0],
                                        'observed': jsonable(res)}, model_says=model)
+    # a disagreeing history is the most useful thing to name in a replay file: put it before broken obligations
+    ctx.broken.sort(key=lambda b: 0 if (b['kind'] == 'correspondence' and b['candidates']) else 1)
     if results:
         good = [r for r in results if 'error' not in r]
         ctx.sample({'history': [list(o) for o in histories[0][1]], 'observed': jsonable(good[0])[:4]})
